@@ -79,6 +79,14 @@ def make_trees(r, tier):
         r.shuffle(poss)
         mid = T.Node(r.choice(["Man", "Glc", "Gal"]), [(r.choice("ab"), 1, p, T.Node(nm)) for nm, p in zip(names4, poss)])
         out.append((T.Node("Glc", [("b", 1, r.choice([2, 3, 4, 6]), mid)]), ""))
+    # parents that use more than one ring-closure label themselves: anhydro roots, residues carrying cyclic groups
+    for i in range(4 if tier == "quick" else 30):
+        out.append((T.random_tree(r, r.randint(2, 5), root_names=["1,6-Anhydro-Glc", "1,6-Anhydro-Gal"], p_branch=0.5), ""))
+    for tok in [x for x in ("Bz", "Bn", "Tr", "Ts", "Fmoc", "Coum", "Phthi", "Cbz", "Pyr") if x in MODS]:
+        nm = f"Glc3{tok}"
+        T.RES[nm] = (1, (2, 4, 6), (), "hexp-mod")
+        mid = T.Node(nm, [("b", 1, 4, T.Node("Gal", [("a", 1, 3, T.Node("Man"))])), ("a", 1, 2, T.Node("Fuc"))])
+        out.append((T.Node("Glc", [("b", 1, 4, mid)]), ""))
     # every modification token once on a non-root residue (quick: the fixed list; thorough: a second position too)
     for tok in MODS:
         for pos, link in ((3, 4), (6, 2)) if tier == "thorough" else (((3, 4),) if len(out) % 2 else ((6, 2),)):
